@@ -179,6 +179,24 @@ StartRun ==
   /\ UNCHANGED <<gvars, status, errs, handled, cancelled, w, msgs, att, last, sem, lockBusy, buf, wlog,
                  retnil, failed, spd, wk, sk, exited, launched>>
 
+\* Run returned nil and every goroutine it started has ended: the program goes on building the very same Graph
+\* (new tasks, another limit) and calls Run on it again.  Everything that ran stays done; the semaphore of the next
+\* Run is a new one with the limit then in force.
+Continue ==
+  /\ phase = "returned" /\ result = "nil" /\ errs = {} /\ ~cancelled
+  /\ \A v \in Tasks : w[v] \in {"none", "fin"} /\ msgs[v] = <<>>
+  /\ sem = 0
+  /\ phase' = "build" /\ result' = "none"
+  /\ w' = [t \in Tasks |-> "none"]
+  /\ UNCHANGED <<gvars, status, errs, handled, cancelled, msgs, att, last, sem, lockBusy, buf, wlog,
+                 retnil, failed, spd, wk, sk, exited, launched>>
+
+\* SetMaxParallel(n), n > 0, while building
+SetLimit(n) ==
+  /\ phase = "build" /\ n > 0
+  /\ limit' = n
+  /\ UNCHANGED <<verts, deps, retries, gerrs, dot, tmKnown, tmErrs, serial, buffered, phase, rvars>>
+
 -----------------------------------------------------------------------------
 (* Scheduler.  Only the scheduler writes status and errs.                  *)
 
@@ -396,8 +414,13 @@ TaskMutex == \A v \in Tasks : w[v] \in {"locked", "run", "exited", "flushed", "s
 BlocksWhole == \A k \in 1..Len(wlog) : wlog[k] # <<>> /\ \A a, b \in 1..Len(wlog[k]) : wlog[k][a][1] = wlog[k][b][1] /\ wlog[k][a][2] = wlog[k][b][2]
 
 (* C16 *)
-CycleRejected == (phase = "returned" /\ result = "cycle") => \A v \in Tasks : att[v] = 0 /\ w[v] = "none" /\ status[v] = "pending"
-NoStartOnCycle == (HasCycle(verts, deps) \/ gerrs > 0) => \A v \in Tasks : att[v] = 0
+\* (a graph that already ran successfully may be extended and run again - Continue: what ran before stays done)
+CycleRejected == (phase = "returned" /\ result = "cycle") =>
+                    \A v \in Tasks : /\ w[v] = "none" /\ status[v] \in {"pending", "done"}
+                                     /\ (status[v] = "pending" => att[v] = 0)
+NoStartOnCycle == (HasCycle(verts, deps) \/ gerrs > 0) =>
+                    /\ phase # "run"
+                    /\ \A v \in Tasks : w[v] = "none" /\ (status[v] = "pending" => att[v] = 0) /\ status[v] \in {"pending", "done"}
 \* no failure, no cancellation: a vertex whose dependencies all completed is launched / gets a slot as soon as one is free
 Ready(v) == v \in verts /\ status[v] = "pending" /\ deps[v] \subseteq retnil /\ \A c \in deps[v] : status[c] = "done"
 WorkConservingLaunch ==
